@@ -13,6 +13,7 @@ mod replay;
 mod report;
 mod scalar;
 mod spec;
+mod static_zoo;
 
 #[cfg(debug_assertions)]
 pub const PROFILE: &str = "checked";
